@@ -54,6 +54,18 @@ func lossless(it *T, iv *V, ot *T, ov *V, path string) string {
 			return fmt.Sprintf("at %s: value bytes %s became %s", path, iv.Bytes, ov.Bytes)
 		}
 		return ""
+	case "e", "en":
+		// opaque leaves: the same enum / error type and the same body
+		if ot.K != it.K {
+			return fmt.Sprintf("at %s: primitive became %s", path, ot.K)
+		}
+		if ot.Sexp() != it.Sexp() || ov.ID != iv.ID {
+			return fmt.Sprintf("at %s: primitive type id %d became %d", path, iv.ID, ov.ID)
+		}
+		if ov.Bytes != iv.Bytes {
+			return fmt.Sprintf("at %s: value bytes %s became %s", path, iv.Bytes, ov.Bytes)
+		}
+		return ""
 	case "r":
 		if ot.K != "r" {
 			return fmt.Sprintf("at %s: record became %s", path, ot.K)
@@ -164,7 +176,7 @@ func leafString(t *T, v *V) string {
 		}
 		sort.Strings(parts)
 		return "|{" + strings.Join(parts, ",") + "}|"
-	case "p":
+	case "p", "e", "en":
 		return fmt.Sprintf("%d:%s", v.ID, v.Bytes)
 	}
 	return "?"
@@ -351,6 +363,9 @@ func judge(ins []In, res realRes, fused *T, aggErr string) []finding {
 		}
 		if fused != nil && !sameT(o.T, fused) {
 			switch {
+			case in.T.Under().K == "e" && sameT(o.T, in.T) && o.V.Sexp() == in.V.Sexp():
+				add("C20:uniform:error-value-passthrough", fmt.Sprintf("output %d is the input error value unchanged (type %s); the fused type is %s", i, o.T.Sexp(), fused.Sexp()))
+				continue
 			case unionMiss(in.T, fused) != "":
 				add("C20:uniform:reshape-into-union-member:"+unionMiss(in.T, fused), fmt.Sprintf("output %d has type %s; the fused type is %s", i, o.T.Sexp(), fused.Sexp()))
 			default:
